@@ -384,7 +384,10 @@ func (fr *Frame) loopHead(li *LoopInfo, st *State, pc Term, phiEntry map[*ssa.Ph
 		if pv := phiEntry[phi]; pv.K == vSlice || pv.K == vMap {
 			if v.R != nil {
 				v.R.Label = pv.R.Label
+				v.R.ElemLabel = elemLabel(pv.R)
 			}
+		} else if pv.K == vTerm && v.K == vTerm {
+			v.Lab = labelOf(pv)
 		}
 		if pv := phiEntry[phi]; pv.K == vClo || pv.K == vAddr || pv.K == vNone || pv.K == vIter {
 			v = pv
